@@ -89,7 +89,7 @@ class CompArea:
 def build(img, *, cluster_bits, K=1, version=3, header_length=104, host_shift=0, l2_shift=0, copied=True, backing_name=None,
           comp_maximal=False, comp_base_cluster=None, file_id=0, data_fid=1, snapshots=(), extra_ext=(), name=None,
           incompat_extra=0, compression_type=None, crypt=0, size_bytes=None, reserved_l1_bits=0, l1_pad=0, lazy_desc=True,
-          meta_base=2, snap_table=None, comp_level=6, want_extents=False):
+          meta_base=2, snap_table=None, comp_level=6, want_extents=False, datafile_ext=True, backing_fmt_ext=True):
     """img: abstract Qcow2 image {"ext","datafile","l2n","s","l1","l2","back","size"}; K real clusters per abstract
     cluster.  Returns (image VirtualFile, data VirtualFile|None, info)."""
     cs = 1 << cluster_bits
@@ -176,8 +176,9 @@ def build(img, *, cluster_bits, K=1, version=3, header_length=104, host_shift=0,
     bname = b""
     if img["back"] >= 0:
         bname = (backing_name or "base image.raw").encode()
-        xs.append((EXT_BACKING_FORMAT, b"raw"))
-    if img["datafile"]:
+        if backing_fmt_ext:
+            xs.append((EXT_BACKING_FORMAT, b"raw"))
+    if img["datafile"] and datafile_ext:
         xs.append((EXT_DATA_FILE, b"data file.raw"))
     snap_off, nsnap = (snap_table if snap_table else (0, 0))
     hdr_len = 72 if version == 2 else header_length
